@@ -103,14 +103,10 @@ func runC01(p *Prog, r *Report, tier string) {
 		okV := false
 		eachInstr(dp, func(in ssa.Instruction) {
 			if i, ok := in.(*ssa.If); ok {
-				if b, ok := i.Cond.(*ssa.BinOp); ok && (b.Op == token.NEQ || b.Op == token.EQL) {
-					if u, ok := b.X.(*ssa.UnOp); ok && u.X == ssa.Value(targets[0]) {
-						if v, ok := constInt(b.Y); ok && v == 10 {
-							bad := 0
-							if b.Op == token.EQL {
-								bad = 1
-							}
-							okV = onlyErrorReturnsFrom(i.Block().Succs[bad])
+				for _, cf := range cmpForms(i.Cond) {
+					if u, ok := cf.X.(*ssa.UnOp); ok && u.X == ssa.Value(targets[0]) && cf.Op == token.NEQ {
+						if v, ok := constInt(cf.Y); ok && v == 10 {
+							okV = onlyErrorReturnsFrom(i.Block().Succs[cf.Succ])
 						}
 					}
 				}
